@@ -85,19 +85,23 @@ def run(ctx):
       nv = int(np.prod(sizes))
       K = basis_and_dense(rng, nv, 2)
       X = np.array([p for p in itertools.product(xg, repeat=len(sizes))
-                    if all(p[d] <= sizes[d] - 0.5 for d in range(len(sizes)))], dtype=np.float32)
+                    if all(p[d] <= sizes[d] + 0.5 for d in range(len(sizes)))], dtype=np.float32)
       if len(X) > (150 if ctx.quick else 600):
         X = X[rng.choice(len(X), size=150 if ctx.quick else 600, replace=False)]
       for interp in ("hypercube", "simplex"):
-        out = evaluate(tf, tfl, sizes, interp, True, K, X)
-        events += events_for(sizes, interp, True, K, X, out, xden, ctx, "tensor,units>1,clip")
         Xin = X[in_range(sizes, X)]
-        out = evaluate(tf, tfl, sizes, interp, False, K[:, :3], Xin, as_list=True)
-        events += events_for(sizes, interp, False, K[:, :3], Xin, out, xden, ctx, "list,units>1,noclip")
-        out = evaluate(tf, tfl, sizes, interp, True, K[:, -1:], X, extra_batch=True)
-        events += events_for(sizes, interp, True, K[:, -1:], X, out, xden, ctx, "tensor,units=1,extra-batch,clip")
-        out = evaluate(tf, tfl, sizes, interp, True, K[:, -1:], X[:40], as_list=True)
-        events += events_for(sizes, interp, True, K[:, -1:], X[:40], out, xden, ctx, "list,units=1,clip")
+        for clip, Kc, Xc, kw, path in ((True, K, X, {}, "tensor,units>1,clip"),
+                                       (False, K[:, :3], Xin, {"as_list": True}, "list,units>1,noclip"),
+                                       (True, K[:, -1:], X, {"extra_batch": True}, "tensor,units=1,extra-batch,clip"),
+                                       (True, K[:, -1:], X[:40], {"as_list": True}, "list,units=1,clip")):
+          try:
+            out = evaluate(tf, tfl, sizes, interp, clip, Kc, Xc, **kw)
+          except Exception as ex:  # pylint: disable=broad-except
+            # the layer raised on finite inputs of an accepted configuration: the function has no value there
+            events.append({"ev": "Raised", "site": {"layer": "lattice"}, "exc": repr(ex)[:300],
+                           "call": {"sizes": list(sizes), "interp": interp, "clip": clip, "path": path}})
+            continue
+          events += events_for(sizes, interp, clip, Kc, Xc, out, xden, ctx, path)
       ctx.nontrivial.add(str(sizes))
   log("  %d enumerated Eval events" % len(events))
   ctx.sample({k: events[len(events) // 2].get(k) for k in ("sizes", "interp", "clip", "k", "x", "out", "oden")})
